@@ -9,12 +9,14 @@ a real back-end error would.
 
 import asyncio
 import errno
+import functools
 import io
 import os
 import pathlib
 
 from . import boot  # noqa: F401
 from aioftp import pathio as _pathio
+from aioftp import errors as _errors
 from aioftp.common import AbstractAsyncLister
 
 OPS = ("exists", "is_dir", "is_file", "mkdir", "rmdir", "unlink", "list", "stat",
@@ -23,6 +25,10 @@ OPS = ("exists", "is_dir", "is_file", "mkdir", "rmdir", "unlink", "list", "stat"
 
 class Fault(Exception):
     """Non-OSError failure class for injected faults."""
+
+
+class Bare(Exception):
+    """marker: becomes a bare aioftp.PathIOError() (reason None) on its way out of the spy back end"""
 
 
 class SpyControl:
@@ -36,6 +42,7 @@ class SpyControl:
         self.fired = []          # (n, op, path)
         self.closed_handles = 0
         self.opened_handles = 0
+        self.delay_after = None  # callable(op, path, n) -> seconds slept *after* the operation took effect (write only)
         self.read_cap = None     # callable(requested) -> bytes to really read (short reads before end of file)
         self.on_call = None      # callable(spy, op, path) for checks that tag calls themselves
 
@@ -86,7 +93,23 @@ class SpyControl:
 
 
 def make_spy(base, ctl):
-    ue = _pathio.universal_exception
+    _ue = _pathio.universal_exception
+
+    def ue(f):
+        """the library's own wrapper; an injected `Bare` fault leaves it as a PathIOError *without* a reason, the way a custom
+        back end that raises aioftp.PathIOError itself would"""
+        wrapped = _ue(f)
+
+        @functools.wraps(f)
+        async def outer(*a, **kw):
+            try:
+                return await wrapped(*a, **kw)
+            except _errors.PathIOError as e:
+                r = getattr(e, "reason", None)
+                if r and len(r) > 1 and isinstance(r[1], Bare):
+                    raise _errors.PathIOError() from None
+                raise
+        return outer
 
     class Spy(base):
         _ctl = ctl
@@ -159,7 +182,13 @@ def make_spy(base, ctl):
         @ue
         async def write(self, file, *args, **kwargs):
             await ctl.before(self, "write", None)
-            return await base.write(self, file, *args, **kwargs)
+            r = await base.write(self, file, *args, **kwargs)
+            if ctl.delay_after is not None:
+                # the bytes are in the file, the acknowledgement comes late (a back end that waits for a sync / a remote ack)
+                d = ctl.delay_after("write", None, ctl.n)
+                if d:
+                    await asyncio.sleep(d)
+            return r
 
         @ue
         async def read(self, file, *args, **kwargs):
